@@ -138,7 +138,7 @@ struct Corpus {
       struct Act { const char *s; bool arr; const char *cls; };
       static const std::vector<Act> acts = {{"1", false, "k"}, {"70000", false, "K"}, {"x", false, "l"}, {"g", false, "g"}, {"p", false, "p"}, {"(x - (i + 1))", false, "tmp"}, {"id(3)", false, "call"},
                                             {"id(id(4))", false, "call2"}, {"(id(2) + (x - i))", false, "call+tmp"}, {"a[i]", false, "ai"}, {"a", true, "arr"}, {"fa", true, "farr"}, {"\"ab\"", true, "str"},
-                                            {"(x - (i - (g - p)))", false, "tmp2"}, {"f2(x, id(1))", false, "call3"}};
+                                            {"(x - (i - (g - p)))", false, "tmp2"}, {"f2(x, id(1))", false, "call3"}, {"a[0]", false, "a0"}, {"a[1]", false, "a1"}, {"a[2]", false, "a2"}, {"a[3]", false, "a3"}, {"fa[2]", false, "fa2"}};
       auto nActs = std::make_shared<std::vector<Act>>(acts);
       // callee for a kind vector: returns weighted sum making every formal observable
       auto callee = [](const std::string &name, const std::vector<bool> &arr, bool func) {
@@ -167,7 +167,10 @@ struct Corpus {
           {"func-element", true, [](const std::string &c) { return "a[i] := " + c + "; 0(a[2])"; }},
           {"func-subscript", true, [](const std::string &c) { return "0(a[" + c + " - " + c + "])"; }},
       };
-      int maxAr = 3; size_t na = thorough ? acts.size() : 10;
+      // quick uses a 12-element subset: the first 9 kinds plus a[i], a[1], a[2]
+      auto quickActs = std::make_shared<std::vector<Act>>(std::vector<Act>(acts.begin(), acts.begin() + 10)); quickActs->push_back(acts[16]); quickActs->push_back(acts[17]);
+      if (!thorough) nActs = quickActs;
+      int maxAr = 3; size_t na = nActs->size();
       for (int ar = 0; ar <= maxAr; ar++) {
         uint64_t combos = 1; for (int i = 0; i < ar; i++) combos *= na;
         for (size_t ci = 0; ci < cctx.size(); ci++) {
@@ -302,6 +305,25 @@ struct Corpus {
       for (const char *st : {"0", "1", "255", "256", "257", "511", "512", "767", "1024", "1791", "1792", "2047", "2048", "2304", "65536", "70000"}) {
         P("streams", std::string("proc main() is { 1('a', ") + st + "); 1(353, " + st + "); 1('c', 0); 1('d', " + st + "); 0(3) }\n");
         P("streams", std::string("val s = ") + st + ";\nproc w(val c, val t) is 1(c, t)\nproc main() is var i; { i := 0; while i < 3 do { w('x' + i, s); i := i + 1 }; w('!', 0); 0(i) }\n");
+      }
+      // F12: every ordered pair (thorough: triple) of simple statements over a vocabulary of assignments and calls whose sources and targets include each
+      // constant subscript 0..3 of a global and of a formal array: adjacent-statement interactions (peephole removal of reloads, register reuse)
+      {
+        std::vector<std::string> tg = {"x", "y", "g", "a[0]", "a[3]", "a[i]", "fa[1]"};
+        std::vector<std::string> srcv = {"7", "x", "g", "a[0]", "a[1]", "a[2]", "a[3]", "fa[0]", "fa[2]", "id(x)", "x + 1", "a[1] + a[2]"};
+        auto voc = std::make_shared<std::vector<std::string>>();
+        for (auto &t : tg) for (auto &v : srcv) voc->push_back(t + " := " + v);
+        for (const char *c : {"pr2(x, a[1])", "pr2(a[2], x)", "pr2(g, a[2])", "pr3(x, g, a[3])", "y := f2(x, a[2])", "y := f2(a[3], a[3])", "y := f3(1, 2, a[3])", "y := f3(x, a[3], a[2])", "1(a[2], 0)", "1(x, a[0])", "y := lf()", "y := lf() + a[0]"}) voc->push_back(c);
+        auto mk = [voc](const std::vector<size_t> &ix) {
+          std::string body; for (auto k : ix) body += (*voc)[k] + "; ";
+          return std::string("var g; var h; array a[4];\nfunc id(val n) is return n\nfunc f2(val u, val v) is return (u + u) + ((v + v) + v)\nfunc f3(val u, val v, val w) is return (u + (v + v)) + ((w + w) + (w + w))\n"
+                             "func lf() is return a[0]\nproc pr2(val u, val v) is h := (h + u) + (v + v)\nproc pr3(val u, val v, val w) is h := ((h + u) + (v + v)) + ((w + w) + (w + w))\n"
+                             "proc t(val p, array fa) is var x; var i; var y;\n{ x := 5; i := 2; y := 0; g := 9; h := 0; a[0] := 0; a[1] := 0; a[2] := 0; a[3] := 0; a[0] := 10; a[1] := 11; a[2] := 12; a[3] := 13;\n  ") + body +
+                 "1(x, 0); 1(y, 0); 1(g, 0); 1(h, 0); 1(a[0], 0); 1(a[1], 0); 1(a[2], 0); 1(a[3], 0); 0(((x + y) + (g + h)) + ((a[0] + a[1]) + (a[2] + a[3]))) }\nproc main() is t(20, a)\n";
+        };
+        size_t nv = voc->size();
+        add({"F12:stmt-pairs", (uint64_t)nv * nv, [mk, nv](uint64_t i, std::string *shape) { if (shape) *shape = "pair"; return mk({(size_t)(i / nv), (size_t)(i % nv)}); }});
+        if (thorough) add({"F12:stmt-triples", (uint64_t)nv * nv * nv, [mk, nv](uint64_t i, std::string *shape) { if (shape) *shape = "triple"; return mk({(size_t)(i / (nv * nv)), (size_t)((i / nv) % nv), (size_t)(i % nv)}); }});
       }
       // F9: large frames (stack offsets that need prefixes) and many formals; every local and formal is written and read back
       for (int nl : {1, 14, 15, 16, 17, 40, 260}) for (int nf : {0, 1, 9, 10, 17}) {
